@@ -1,6 +1,6 @@
 (* C19 correspondence: observed behaviour of the real health.Monitor, proxy.Manager (with its
    wrappers) and visitor.Manager against Model/Health.v, Model/Wrapper.v, Model/Reconcile.v. *)
-From FRP Require Export Corr.Common Model.Health Model.Wrapper Model.Reconcile.
+From FRP Require Export Corr.Common Model.Health Model.Wrapper Model.Reconcile Model.ClientSvc.
 Open Scope Z_scope.
 
 (* ---------- health ---------- *)
@@ -53,6 +53,9 @@ Inductive c19_rop :=
    (name, wrapper id, phase, Err <> "", value) *)
 Definition c19_rstep : Type := c19_rop * list (Z * Z * Z) * Z * list (Z * Z * Z * Z * Z).
 
+(* ---------- service path ---------- *)
+Inductive c19_svop := SOLogin | SOLost | SOReload (p v : list (Z * Z)).
+
 (* ---------- visitors ---------- *)
 (* op (Some cfgs = UpdateAll with (name, value) entries, None = only keepVisitorsRunning rounds),
    names whose visitor.Run() fails at this step (bind port occupied by the harness),
@@ -67,7 +70,11 @@ Inductive c19_case :=
 (* system variant (real frpc against an in-process frps), quiescent reloads only: configuration
    set, set of NewProxy/CloseProxy requests the SERVER saw during the step (1/2, name, 0), status
    rows of the client afterwards (name, phase, value) *)
-| CSys (steps : list (list (Z * Z * bool) * list (Z * Z * Z) * list (Z * Z * Z))).
+| CSys (steps : list (list (Z * Z * bool) * list (Z * Z * Z) * list (Z * Z * Z)))
+(* service path (real frpc, reload through Service.UpdateAllConfigurer, outage and re-login):
+   initial proxy / visitor sets, then per step the operation and, when the session is live afterwards,
+   the proxy rows (name, value) and visitor rows (name, value, running) of the current Control *)
+| CSvc (p0 v0 : list (Z * Z)) (steps : list (c19_svop * bool * list (Z * Z) * list (Z * Z * Z))).
 
 
 Definition c19_cfg (x : Z * Z * bool) : rc_cfg :=
@@ -227,6 +234,37 @@ Fixpoint c19_sys_check (t : pw_timing) (s : pm_state) (now : Z)
       else c19_sys_check t s2 now1 r
   end.
 
+Definition c19_t2_eqb (a b : Z * Z) : bool := (fst a =? fst b) && (snd a =? snd b).
+(* reason codes: 41 live/not live differs, 42 proxy rows, 43 visitor rows *)
+Fixpoint c19_svc_check (t : pw_timing) (s : sv_state)
+  (steps : list (c19_svop * bool * list (Z * Z) * list (Z * Z * Z))) : Z :=
+  match steps with
+  | [] => 0
+  | (op, live, prow, vrow) :: r =>
+      let ok := fun _ : Z => true in
+      (* at a re-login a visitor's Run() can fail because the dead Control's visitor still holds the
+         bind port (it is closed only after Control.Run); the observed result is the oracle *)
+      let okl := fun n : Z => existsb (fun r : Z * Z * Z => (fst (fst r) =? n) && (snd r =? 1)) vrow in
+      let s1 := sv_step t s (match op with
+                             | SOLogin => SVLogin okl
+                             | SOLost => SVLost
+                             | SOReload p v => SVReload (map c19_vcfg p) (map c19_vcfg v) ok
+                             end) in
+      match sv_ctl s1 with
+      | SvLive c =>
+          let mp := map (fun ne : Z * pm_entry => (fst ne, rc_val (pe_cfg (snd ne)))) (pm_map (sc_pm c)) in
+          let mv := map (fun nc : Z * rc_cfg =>
+                           (fst nc, rc_val (snd nc),
+                            match rc_get (vm_vis (sc_vm c)) (fst nc) with Some _ => 1 | None => 0 end))
+                        (vm_cfgs (sc_vm c)) in
+          if negb live then 41
+          else if negb (c19_set_eqb c19_t2_eqb prow mp && (Z.of_nat (length prow) =? Z.of_nat (length mp))) then 42
+          else if negb (c19_set_eqb c19_t3_eqb vrow mv && (Z.of_nat (length vrow) =? Z.of_nat (length mv))) then 43
+          else c19_svc_check t s1 r
+      | _ => if live then 41 else c19_svc_check t s1 r
+      end
+  end.
+
 Definition c19_check_case (c : c19_case) : Z :=
   match c with
   | CHealth kind maxFailed hasN hasF probes events =>
@@ -237,6 +275,8 @@ Definition c19_check_case (c : c19_case) : Z :=
       c19_recon_check {| pw_wait := w; pw_errto := e |} pm_init 1000 steps
   | CVis steps => c19_vis_check vm_init steps
   | CSys steps => c19_sys_check {| pw_wait := 100; pw_errto := 100000 |} pm_init 1000 steps
+  | CSvc p0 v0 steps =>
+      c19_svc_check {| pw_wait := 100; pw_errto := 100000 |} (sv_init (map c19_vcfg p0) (map c19_vcfg v0)) steps
   end.
 
 
@@ -305,6 +345,15 @@ Definition c19_case_retries_start_error (c : c19_case) : bool :=
                     existsb (fun ne : Z * pm_entry =>
                                match pw_ph (pe_w (snd ne)), rc_get (pm_map s1) (fst ne) with
                                | PWStartErr, Some e1 => (pe_id e1 =? pe_id (snd ne)) && pw_phase_eqb (pw_ph (pe_w e1)) PWWait
+                               | _, _ => false
+                               end) (pm_map s))
+          (c19_recon_trace c).
+(* a wrapper withdrawn by a health failure while its NewProxy was unanswered (wait start -> check failed) *)
+Definition c19_case_withdrawn_while_waiting (c : c19_case) : bool :=
+  existsb (fun x => let '(op, s, s1, _) := x in
+                    existsb (fun ne : Z * pm_entry =>
+                               match pw_ph (pe_w (snd ne)), rc_get (pm_map s1) (fst ne) with
+                               | PWWait, Some e1 => (pe_id e1 =? pe_id (snd ne)) && pw_phase_eqb (pw_ph (pe_w e1)) PWCheckFailed
                                | _, _ => false
                                end) (pm_map s))
           (c19_recon_trace c).
